@@ -6,10 +6,7 @@ from ..core import AnalysisError, norm, walk_no_nested
 
 META = {
     'design_ref': 'DESIGN.md §3 C07',
-    'technique': 'sanitizer (taint) rule for member names with a prefix-table check of the normaliser, flow-sensitive set-expression '
-                 'analysis of the part discovery (which candidate set is intersected with the archive members at the time of the '
-                 'uniqueness guards), constant-folded agreement between the candidate names and the extension test of tgz(), '
-                 'error-discipline and dominance rules on the CFG, md5sums line-splitting shape',
+    'technique': 'abstract interpretation (sa.heap with symbolic strings) of has_file/get_file on the three spellings of a member name, of DebFile.__init__ on all archive layouts with zero, one or two candidates per part, of tgz() on every candidate name and error source, of md5sums()/scripts()/debcontrol() on symbolic lines; two-instance scenario for state shared between parts',
     'level_text': 'Static decision: every query name passes through a normaliser that strips exactly one leading "./" or "/" before the '
                   'single lookup spelling "./name"; the part for control/data is the unique member among all compressed and uncompressed '
                   'candidates or DebError; every candidate name is accepted by the extension test; all structural failures raise DebError; '
